@@ -71,6 +71,10 @@ theorem fact_add_two_phases :
     "!transaction.PayloadHash().Equals(payloadHash)" ∈ Facts.C06.addWriteConds ∧
     "payload != nil" ∈ Facts.C06.addWriteConds := by decide
 
+/-- a rolled-back write reloads the volatile copies (XOR/IBLT trees, atomic clock) with a FRESH context: the reload must
+    not fail because the caller's context — the reason for the rollback — is cancelled (the model's rollback = old state) -/
+theorem fact_rollback_reloads : "s.loadState(context.Background())" ∈ Facts.C06.addRollbackStmts := by decide
+
 /-- `addSingle` refuses a second transaction without prevs once clock 0 is occupied; `dag.add` moves the head on a
     higher clock or on clock 0 -/
 theorem fact_root_check :
@@ -256,6 +260,31 @@ theorem rejected_no_trace (cfg : Cfg) (b64 : String → Bool) (env : Env) (subs 
   · rfl
   · rfl
 
+/-- **A cancelled Add leaves no trace either**: when the caller's context is cancelled while the write transaction is
+    open (stoabs rolls back before the commit), whatever the transaction and the state, nothing changes — shelves, digest,
+    clocks, jobs, ledger — and a non-present, admissible transaction is reported as an error (`fact_rollback_reloads` ties
+    the "volatile copies are reloaded" part to the source; the harness cancels inside a subscriber's Save). -/
+theorem cancelled_add_no_trace (env : Env) (subs : List Sub) (s : St) (tx : Tx) (p : Option Nat) :
+    (addCancelled env subs s tx p).1 = s ∧
+    (tx.ref ∉ refsOf s.txs → (addCancelled env subs s tx p).2 ≠ .ok ()) := by
+  unfold addCancelled phase2Cancelled
+  refine ⟨?_, ?_⟩
+  · split
+    · rfl
+    · rfl
+    · rfl
+    · split
+      · rfl
+      · split <;> rfl
+  · intro hf
+    have hp : s.present tx.ref = false := present_false_iff.mpr hf
+    split
+    · rename_i h; unfold phase1 at h; simp [hp] at h; split at h <;> cases h
+    · intro h; cases h
+    · intro h; cases h
+    · simp only [hp, Bool.false_eq_true, if_false]
+      split <;> (intro h; cases h)
+
 /-! ### every reachable state is a valid DAG -/
 
 structure Offer where
@@ -420,6 +449,8 @@ example : add env subs s2 root2 (some 4) = (s2, .err "root-exists") := by decide
 example : add env subs s2 (mk 15 3 [12] 105 true "") none = (s2, .err "clock") := by decide
 example : add env subs s2 (mk 15 1 [99] 105 true "") none = (s2, .err "prev-missing") := by decide
 example : add env subs s2 sibling (some 2) = (s2, .err "payload-hash") := by decide
+/-- `cancelled_add_no_trace`: an admissible sibling whose Add is cancelled in the write transaction -/
+example : addCancelled env subs s2 sibling (some 3) = (s2, .err "cancelled") := by decide
 /-- a kid that resolves for no prev is refused -/
 example : add env subs s2 (mk 16 2 [12] 105 false "did:nuts:a#k1") none = (s2, .err "did-not-found") := by decide
 
